@@ -46,14 +46,14 @@ prop("C07", title="capacity honest / reservation contract / stability", equiv=["
 prop("C08", title="alignment", equiv=["EquivAlign.alignment_equiv", "EquivMaxAlign.max_align_equiv", "EquivCtor.with_alignment_equiv"], trusted=[HAND, EXTR])
 prop("C09", title="impossible sizes", equiv=["next_aligned_equiv", "make_layout_equiv"], quick_n=480, thorough_n=4000, child_timeout=15,
      trusted=[HAND, EXTR, "Eval.v's reading of usize arithmetic (panic in debug, wrap in release), checked_add/checked_mul and Layout::from_size_align"])
-prop("C10", title="iterator protocol", equiv=["EquivIter.drain_next_equiv", "EquivIter.drain_next_back_equiv", "EquivIter.into_next_equiv", "EquivIter.into_next_back_equiv", "EquivIter.into_len_equiv", "EquivIter.into_size_hint_equiv", "EquivDrain.into_new_equiv", "EquivIter.splice_next_equiv", "EquivIter.splice_next_back_equiv", "EquivIter.drain_size_hint_equiv", "EquivIter.splice_size_hint_equiv", "EquivFilter.loop_equivF", "EquivFilter.filter_next_equiv", "EquivFilter.filter_size_hint_equiv", "EquivDelegIter.into_iter_is_into_iter_new"], trusted=[HAND, EXTR])
+prop("C10", title="iterator protocol", equiv=["EquivIter.drain_next_equiv", "EquivIter.drain_next_back_equiv", "EquivIter.into_next_equiv", "EquivIter.into_next_back_equiv", "EquivIter.into_len_equiv", "EquivIter.into_size_hint_equiv", "EquivDrain.into_new_equiv", "EquivIter.splice_next_equiv", "EquivIter.splice_next_back_equiv", "EquivIter.drain_size_hint_equiv", "EquivIter.splice_size_hint_equiv", "EquivFilter.loop_equivF", "EquivFilter.filter_next_equiv", "EquivFilter.filter_size_hint_equiv", "EquivDelegIter.into_iter_is_into_iter_new", "EquivIter.into_as_slice_equiv"], trusted=[HAND, EXTR])
 prop("C11", title="out-of-range arguments rejected atomically", equiv=["EquivDrain.drain_equiv", "EquivDrain.splice_equiv"], trusted=[HAND, EXTR])
 prop("C12", equiv=["EquivClone.loop_equivC", "EquivClone.clone_equiv", "EquivDrain.into_clone_equiv", "EquivExtSlice.loop_equivS", "EquivExtSlice.extend_from_slice_equiv", "EquivExtSlice.loop_equivFS", "EquivExtSlice.from_slice_equiv"], title="clones deep and independent", trusted=[HAND, EXTR, UBDEF])
 prop("C13", title="handle is one pointer wide with a niche", impl="sizes",
      trusted=["coq/Layout.v: rustc's repr(Rust) struct layout rules are MODELLED (40 lines), not verified; "
               "rustc is the observed oracle (size_of/align_of table printed by the harness)"])
 prop("C14", title="raw-pointer round trip", equiv=["EquivData.data_equiv", "EquivData.as_mut_ptr_equiv", "EquivRaw.into_raw_parts_equiv", "EquivRaw.from_raw_part_equiv", "EquivRaw.from_raw_parts_equiv"], trusted=[HAND, EXTR, UBDEF])
-prop("C15", title="slice semantics of comparisons", equiv=["EquivDelegSlice.slice_views_are_deref"], trusted=[HAND, EXTR, "the delegation shapes are read from syntax (rs2v deleg_shape); core's slice impls are trusted"])
+prop("C15", title="slice semantics of comparisons", equiv=["EquivDelegSlice.slice_views_are_deref", "EquivDeref.deref_equiv"], trusted=[HAND, EXTR, "the delegation shapes are read from syntax (rs2v deleg_shape); core's slice impls are trusted"])
 prop("C16", title="compile-time rules", impl="rustc",
      trusted=["rustc is the observed oracle: the corpus of must-not-compile / must-compile programs is compiled against the current crate",
               "coq/Static.v checks signature tables only; Rust's borrow checker, auto-trait derivation and variance are NOT modelled"])
